@@ -4,6 +4,7 @@ package routersim
 
 import (
 	"os"
+	"runtime/debug"
 	"testing"
 
 	"verif/sim/core"
@@ -22,6 +23,11 @@ func TestWorker(t *testing.T) {
 	// every re-execution of the minimiser builds a whole router; keep the minimisation bounded
 	if os.Getenv("VERIF_MIN_EXECS") == "" {
 		os.Setenv("VERIF_MIN_EXECS", "150")
+	}
+	// every run allocates a fresh router (a 2 MB data-plane structure and a packet pool of several MB);
+	// a larger heap goal keeps that memory mapped instead of faulting it in again for every run
+	if os.Getenv("GOGC") == "" {
+		debug.SetGCPercent(800)
 	}
 	core.Main(t, core.Engine{Name: "routersim", Campaigns: map[string]core.RunFunc{
 		"C14/clean":    campaign(modeClean),
